@@ -308,8 +308,10 @@ func (s *Server) Subscribe(stream pb.GNMI_SubscribeServer) error {
 		if c.sr.GetSubscribe().GetUpdatesOnly() {
 			c.queue.Insert(syncMarker{})
 		}
+		verifAt("stream.register", stream)
 		remove := addSubscription(s.m, c.sr.GetSubscribe(),
 			&matchClient{acl: c.acl, q: c.queue})
+		verifAt("stream.registered", stream)
 		defer remove()
 		if !c.sr.GetSubscribe().GetUpdatesOnly() {
 			go s.processSubscription(&c)
@@ -380,6 +382,7 @@ func (c matchClient) Update(n interface{}) {
 	if c.err != nil {
 		return
 	}
+	verifAt("offer", c.q)
 	_, c.err = c.q.Insert(n)
 }
 
@@ -397,6 +400,7 @@ type streamClient struct {
 func (s *Server) processSubscription(c *streamClient) {
 	var err error
 	log.V(2).Infof("start processSubscription for %p", c)
+	verifAt("walk.begin", c.stream)
 	// Close the cache client queue on error.
 	defer func() {
 		if err != nil {
@@ -427,6 +431,7 @@ func (s *Server) processSubscription(c *streamClient) {
 		}
 	}
 
+	verifAt("walk.end", c.stream)
 	_, err = c.queue.Insert(syncMarker{})
 }
 
@@ -502,6 +507,7 @@ func (s *Server) sendStreamingResults(c *streamClient) {
 		}
 	}()
 	for {
+		verifAt("send.dequeue", [2]interface{}{c.stream, c.queue})
 		item, dup, err := c.queue.Next(ctx)
 		if coalesce.IsClosedQueue(err) {
 			c.errC <- nil
